@@ -49,21 +49,40 @@ static Built build(const std::vector<S> &lits, const std::vector<Field> &fields,
     return b;
 }
 
-static void run(int shape, const Values &v, const std::vector<S> &lits, const std::vector<Field> &fields)
-{
+// One call, prepared: the reference's verdict, the argument descriptions and the recorder's note are computed once; execute()
+// makes the library call and compares (the soak phase executes a prepared call many times).
+struct Prepared {
+    int shape = 0;
+    std::vector<Field> fields;
     std::vector<Arg> args;
-    call_shape(shape, v, "", &args, [](const char *, auto &&...) {});     // describe only
-    Built b = build(lits, fields, args);
-    if (b.expect_exc[0] == 'a') return;                                    // padded {c}: documented contract assertion, not generated here
+    Built b;
+    S note;
+};
+static bool prepare(int shape, const Values &v, const std::vector<S> &lits, const std::vector<Field> &fields, Prepared &p)
+{
+    p.shape = shape;
+    p.fields = fields;
+    call_shape_x(shape, v, "", &p.args, [](const char *, auto &&...) {});     // describe only
+    p.b = build(lits, fields, p.args);
+    if (p.b.expect_exc[0] == 'a') return false;                              // padded {c}: documented contract assertion, not generated here
+    p.note = sfmt("shape=%d fmt=%s args: %s\n", shape, show(p.b.fmt).c_str(), describe_values(p.args).c_str());
+    return true;
+}
+static void execute(const Prepared &p, const Values &v)
+{
+    const int shape = p.shape;
+    const Built &b = p.b;
+    const std::vector<Arg> &args = p.args;
+    const std::vector<Field> &fields = p.fields;
     vrt::Exact<char> f(b.fmt.data(), b.fmt.size(), true);
     vrt::cur_rewind();
-    vrt::cur_printf("shape=%d fmt=%s args: %s\n", shape, show(b.fmt).c_str(), describe_values(args).c_str());
+    vrt::cur_printf("%s", p.note.c_str());
     S got;
     const char *exc = "";
     S what;
     vrt::evals();
     try {
-        call_shape(shape, v, f.data(), nullptr, [&](const char *fs, auto &&...a) {
+        call_shape_x(shape, v, f.data(), nullptr, [&](const char *fs, auto &&...a) {
             ST::string r = ST::format(fs, a...);
             got.assign(r.c_str(), r.size());
             if (r.c_str()[r.size()] != 0) vrt::violation("C11:no-terminator", show(b.fmt));
@@ -74,14 +93,17 @@ static void run(int shape, const Values &v, const std::vector<S> &lits, const st
     } catch (const std::invalid_argument &e) { exc = "std::invalid_argument"; what = e.what(); }
     // (big format strings and results are reported by length, hash and the bytes around the first difference)
     const bool big = b.fmt.size() > 2000 || b.want.size() > 2000 || got.size() > 2000;
-    std::string ctx = big ? sfmt("shape=%d fmt: %s (starts: %s) args: %s", shape, scale::brief(b.fmt).c_str(), vrt::json_escape(b.fmt.substr(0, 60)).c_str(), describe_values(args).c_str())
-                          : sfmt("fmt=%s (text: %s) args: %s", show(b.fmt).c_str(), vrt::json_escape(b.fmt).c_str(), describe_values(args).c_str());
-    if (big && b.ok && !*exc && got != b.want) {
-        const size_t d = scale::first_diff(got, b.want);
-        ctx += sfmt(" first difference at byte %zu: got %s want %s;", d, scale::brief(got, d).c_str(), scale::brief(b.want, d).c_str());
-    }
+    const auto context = [&]() {
+        std::string ctx = big ? sfmt("shape=%d fmt: %s (starts: %s) args: %s", shape, scale::brief(b.fmt).c_str(), vrt::json_escape(b.fmt.substr(0, 60)).c_str(), describe_values(args).c_str())
+                              : sfmt("fmt=%s (text: %s) args: %s", show(b.fmt).c_str(), vrt::json_escape(b.fmt).c_str(), describe_values(args).c_str());
+        if (big && b.ok && !*exc && got != b.want) {
+            const size_t d = scale::first_diff(got, b.want);
+            ctx += sfmt(" first difference at byte %zu: got %s want %s;", d, scale::brief(got, d).c_str(), scale::brief(b.want, d).c_str());
+        }
+        return ctx;
+    };
     if (b.ok) {
-        if (*exc) vrt::violation(sfmt("C11:unexpected-%s", exc), sfmt("%s: %s; want=%s", ctx.c_str(), what.c_str(), show(b.want).c_str()));
+        if (*exc) vrt::violation(sfmt("C11:unexpected-%s", exc), sfmt("%s: %s; want=%s", context().c_str(), what.c_str(), show(b.want).c_str()));
         else if (got != b.want) {
             // classify the mismatch for a readable key
             const char *cat = "wrong-output";
@@ -92,13 +114,14 @@ static void run(int shape, const Values &v, const std::vector<S> &lits, const st
                 if (a && a->is_integer()) cat = fields[0].cls == 'c' ? "wrong-char-rendering" : "wrong-integer-rendering";
                 else if (a) cat = "wrong-text-rendering";
             }
-            vrt::violation(sfmt("C11:%s", cat), sfmt("%s got=%s (%s) want=%s (%s)", ctx.c_str(), show(got).c_str(), vrt::json_escape(got).substr(0, 100).c_str(),
+            vrt::violation(sfmt("C11:%s", cat), sfmt("%s got=%s (%s) want=%s (%s)", context().c_str(), show(got).c_str(), vrt::json_escape(got).substr(0, 100).c_str(),
                                                      show(b.want).c_str(), vrt::json_escape(b.want).substr(0, 100).c_str()));
         }
-        vrt::count("outcome.rendered");
+        static uint64_t &rendered = vrt::counter("outcome.rendered");
+        ++rendered;
     } else {
-        if (!*exc) vrt::violation(sfmt("C11:missing-%s", b.expect_exc), sfmt("%s got=%s", ctx.c_str(), show(got).c_str()));
-        else if (S(exc) != b.expect_exc) vrt::violation(sfmt("C11:wrong-exception-%s-instead-of-%s", exc, b.expect_exc), ctx);
+        if (!*exc) vrt::violation(sfmt("C11:missing-%s", b.expect_exc), sfmt("%s got=%s", context().c_str(), show(got).c_str()));
+        else if (S(exc) != b.expect_exc) vrt::violation(sfmt("C11:wrong-exception-%s-instead-of-%s", exc, b.expect_exc), context());
         vrt::count(S("outcome.") + b.expect_exc);
     }
     for (const Field &f : fields) {
@@ -114,6 +137,11 @@ static void run(int shape, const Values &v, const std::vector<S> &lits, const st
     if (vrt::want_sample("format") && fields.size() >= 2 && b.ok && b.want.size() > 8 && !big)
         vrt::sample("format", sfmt("ST::format(\"%s\", %s) == \"%s\"", vrt::json_escape(b.fmt).c_str(), describe_values(args).c_str(), vrt::json_escape(b.want).c_str()));
 }
+static void run(int shape, const Values &v, const std::vector<S> &lits, const std::vector<Field> &fields)
+{
+    Prepared p;
+    if (prepare(shape, v, lits, fields, p)) execute(p, v);
+}
 
 // integer boundary values for the cross product, stored into every integer member
 static void set_ints(Values &v, unsigned long long mag, bool neg)
@@ -124,6 +152,293 @@ static void set_ints(Values &v, unsigned long long mag, bool neg)
     v.i = static_cast<int>(s); v.u = static_cast<unsigned int>(mag);
     v.l = static_cast<long>(s); v.ul = static_cast<unsigned long>(mag);
     v.ll = s; v.ull = mag;
+}
+
+// ---------------------------------------------------------------- "state that survives a call" / "where the data lives"
+// (rt/ref_format.h, sections 5-7): formatters that call back into the library, the caller's stack, format strings behind
+// foreign bytes, buffers rewritten in place, tens of thousands of consecutive calls in one case - all through run() / execute()
+
+// the body of the "random" phase as a function: a random shape, 0..4 fields
+static void random_call(Rng &r, Values &v, int &shape, std::vector<S> &lits, std::vector<Field> &fields)
+{
+    random_values(r, v);
+    shape = static_cast<int>(r.below(NSHAPES));
+    std::vector<Arg> args;
+    call_shape(shape, v, "", &args, [](const char *, auto &&...) {});
+    const size_t nf = r.below(5);
+    lits = {random_literal(r)};
+    fields.clear();
+    for (size_t k = 0; k < nf; ++k) {
+        Field f = random_field(r, false);
+        if (r.chance(1, 3)) f.argref = static_cast<int>(r.chance(1, 12) ? args.size() + 1 + r.below(3) : (args.empty() ? 1 : 1 + r.below(args.size())));
+        fields.push_back(f);
+        lits.push_back(random_literal(r));
+    }
+}
+
+struct SoakEntry {
+    Values v;
+    Reent x;
+    Prepared p;
+    int mode = 0;
+    size_t slot = 256, align = 0;
+    int depth = 0;
+    unsigned rot = 0;
+    bool usable = false;
+};
+static void soak_execute(SoakEntry &e)
+{
+    Placement &pl = placement();
+    pl.mode = e.mode; pl.slot = e.slot; pl.depth = e.depth; pl.rot = e.rot; pl.align = e.align;
+    ReentScope rs(&e.x);
+    execute(e.p, e.v);
+}
+// flavour 0: boring (ASCII only, short, at most one plain field); 1: random; 2: interesting
+static std::unique_ptr<SoakEntry> soak_entry(Rng &r, int flavour)
+{
+    for (;;) {
+        std::unique_ptr<SoakEntry> e(new SoakEntry);
+        ReentScope rs(&e->x);
+        int shape = 0;
+        std::vector<S> lits;
+        std::vector<Field> fields;
+        if (flavour == 0) {
+            random_values(r, e->v);
+            set_all_texts(e->v, compose(r, r.below(20), BG_ASCII_RANDOM));
+            static const int shapes[] = {0, 1, 2, 3, 5, 45, 32};
+            shape = r.pick(shapes);
+            lits = {compose(r, 1 + r.below(30), BG_ASCII_RANDOM)};
+            if (shape != 0 && r.chance(1, 2)) { fields.push_back(plain_field(0)); lits.push_back(compose(r, r.below(8), BG_ASCII_RANDOM)); }
+        } else if (flavour == 1) {
+            random_call(r, e->v, shape, lits, fields);
+            if (r.chance(1, 6)) {       // ... in a buffer that is rewritten in place by the next call of the same length
+                static const size_t lens[] = {40, 64, 100};
+                std::vector<Arg> args;
+                call_shape(shape, e->v, "", &args, [](const char *, auto &&...) {});
+                ScaleFmt sf;
+                token_fill(r, args.size(), r.pick(lens), false, 20, sf);
+                lits = sf.lits; fields = sf.fields;
+                e->mode = 3; e->align = r.below(16);
+            }
+        } else {
+            ScaleFmt sf;
+            switch (r.below(6)) {
+            case 0: reentrant_case(r, e->v, shape, sf); break;
+            case 1: { Placement pl; stack_case(r.below(200), r, e->v, shape, sf, pl, false); e->mode = 1; e->slot = pl.slot; e->depth = pl.depth; e->rot = pl.rot; break; }
+            case 2: {   // the only characters that are not ASCII sit in the last 1..7 bytes of a text of 16 bytes or more (argument or literal)
+                random_values(r, e->v);
+                const size_t n = 16 + r.below(300), tail = 2 + r.below(6);
+                std::vector<Plant> plants{Plant{n - tail, mb_char(r, static_cast<unsigned>(std::min<size_t>(tail, 2 + r.below(3))))}};
+                const S t = compose(r, n, BG_ASCII_RANDOM, plants);
+                static const int shapes[] = {2, 3, 31, 32, 5, 7, 45, 34, 38, 42, 13, 200};
+                shape = r.pick(shapes);
+                if (r.chance(1, 2)) { set_all_texts(e->v, t); std::vector<Arg> args; call_shape(shape, e->v, "", &args, [](const char *, auto &&...) {}); sf.lit(random_literal(r)); sf.field(plain_field(static_cast<int>(pick_text_arg(r, args, false) + 1))); }
+                else { sf.lit(t); if (r.chance(1, 2)) sf.field(plain_field(1)); }
+                break;
+            }
+            case 3: { ArgCase c; scale_arg_case(r.below(84), r, e->v, c, 6000, 6000); shape = c.shape; sf = c.f; for (Field &f : sf.fields) if (f.width > 6000) f.width = 6000; break; }
+            case 4: {   // the last append takes the output across 256 / 512 bytes
+                random_values(r, e->v);
+                shape = 5;
+                const size_t C = r.chance(2, 3) ? 256 : 512, P = 1 + r.below(40), B = C - r.below(P);
+                set_all_texts(e->v, compose(r, P, BG_ASCII_RANDOM));
+                sf.lit(compose(r, B, BG_ASCII_RANDOM)); sf.field(plain_field(r.chance(1, 2) ? 2 : 4));
+                break;
+            }
+            default: random_call(r, e->v, shape, sf.lits, sf.fields); if (sf.fields.size()) sf.fields[r.below(sf.fields.size())].argref = 9; break;    // mostly std::out_of_range
+            }
+            lits = sf.lits; fields = sf.fields;
+        }
+        if (!prepare(shape, e->v, lits, fields, e->p)) continue;
+        if (flavour == 0 && (!e->p.b.ok || e->p.b.want.size() > 200)) continue;
+        e->usable = true;
+        return e;
+    }
+}
+
+static void history_phases()
+{
+    // ---- re-entrancy: two and three arguments whose formatters call ST::format, recursive formatters, nested failures
+    vrt::note("history phases: (reentrant) argument types whose format_type() calls ST::format / writef / printf itself - two and three of them in one call, trees of depth 2..4 whose nested calls have the "
+              "signature of the running call, nested calls that throw and are caught; (stack) format string and text arguments in local arrays of 64 B..8 KiB right above the library's frames, the output "
+              "outgrowing 256, 512, ... bytes with one append; (same_storage) format strings and arguments of identical size rewritten in place / rebuilt at the same address; (soak) more than 70000 "
+              "consecutive calls in one case; (alignment) format strings of 32..200 bytes at every start alignment with braces directly in front of them");
+    vrt::require("reentrant.cases", 10000);
+    vrt::require("reentrant.nested_calls_of_recursive_formatters", 20000);
+    vrt::require("reentrant.nested_call_with_the_signature_of_a_running_call", 10000);
+    vrt::require("reentrant.nested_call_with_the_signature_of_two_or_more_running_calls", 2000);
+    vrt::require("reentrant.nested_call_threw_and_was_caught_in_the_formatter", 3000);
+    vrt::require("reentrant.nested_call_through_writef", 2000);
+    vrt::require("reentrant.nested_call_through_printf", 2000);
+    vrt::require("reentrant.values_with_a_tree_of_depth_4", 1000);
+    vrt::require("reentrant.two_or_more_nested_formatters_ran_in_one_call", 5000);
+    vrt::require("reentrant.field_behind_a_nested_formatter", 5000);
+    for (int k = 0; k < N_REENT_SHAPES; ++k) vrt::require(sfmt("reentrant.shape.%d", REENT_SHAPES[k]), 300);
+    vrt::phase("reentrant", vrt::tier_count(32000, 1000000), [&](uint64_t, Rng &r) {
+        PlacementScope ps;
+        Values v;
+        int shape = 0;
+        ScaleFmt sf;
+        reentrant_case(r, v, shape, sf);
+        std::vector<Arg> args;
+        call_shape_x(shape, v, "", &args, [](const char *, auto &&...) {});
+        size_t nested = 0, seq = 0;
+        bool behind = false;
+        for (const Field &f : sf.fields) {
+            const size_t idx = f.argref ? static_cast<size_t>(f.argref - 1) : seq++;
+            if (idx >= args.size()) continue;
+            if (nested) behind = true;
+            if (strchr(args[idx].type, '(')) ++nested;          // "Nested (...)", "Tree (...)", "Catcher (...)"
+        }
+        if (nested >= 2) vrt::count("reentrant.two_or_more_nested_formatters_ran_in_one_call");
+        if (behind) vrt::count("reentrant.field_behind_a_nested_formatter");
+        run(shape, v, sf.lits, sf.fields);
+        if (vrt::want_sample("reentrant") && nested >= 2 && sf.len < 60)
+            vrt::sample("reentrant", sfmt("shape %d, format \"%s\" over %s", shape, vrt::json_escape(sf.text()).c_str(), describe_values(args).substr(0, 300).c_str()));
+    });
+
+    // ---- the caller's stack
+    vrt::require("stack.cases", 4000);
+    vrt::require("stack.calls_with_format_string_and_arguments_in_the_caller's_frame", 4000);
+    vrt::require("stack.piece_is_a_text_argument", 1500);
+    vrt::require("stack.piece_is_a_literal_run", 500);
+    vrt::require("stack.piece_is_the_rendering_of_a_number", 400);
+    vrt::require("stack.lowest_array_less_than_4096_bytes_above_the_call", 2000);
+    vrt::require("stack.format_string_less_than_4096_bytes_above_the_call", 1000);
+    vrt::require("stack.output_crosses_256_bytes_in_one_append", 1500);
+    vrt::require("stack.output_crosses_512_bytes_in_one_append", 200);
+    vrt::require("stack.output_crosses_8192_bytes_in_one_append", 200);
+    vrt::require("stack.output_is_exactly_at_the_capacity_before_the_append", 500);
+    vrt::phase("stack", vrt::tier_count(6000, 200000), [&](uint64_t i, Rng &r) {
+        PlacementScope ps;
+        Values v;
+        int shape = 0;
+        ScaleFmt sf;
+        stack_case(i, r, v, shape, sf, placement(), false);
+        run(shape, v, sf.lits, sf.fields);
+        // ... and a call with formatters that re-enter the library from there
+        if (r.chance(1, 8)) {
+            Values v2;
+            ScaleFmt sf2;
+            reentrant_case(r, v2, shape, sf2);
+            run(shape, v2, sf2.lits, sf2.fields);
+        }
+        if (vrt::want_sample("stack") && sf.len < 80)
+            vrt::sample("stack", sfmt("shape %d, format \"%s\" and its text arguments in local arrays of %zu bytes, %d frames above the call", shape, vrt::json_escape(sf.text()).c_str(), placement().slot, placement().depth));
+    });
+
+    // ---- the same storage, different contents
+    vrt::require("same_storage.cases", 600);
+    vrt::require("same_storage.contents", 2500);
+    vrt::require("same_storage.format_string_rewritten_in_place", 1500);
+    vrt::require("same_storage.argument_buffers_rewritten_in_place", 5000);
+    vrt::require("same_storage.ST::string_successors_of_the_same_size", 1000);
+    vrt::require("same_storage.ST::string_heap_block_at_the_address_of_its_predecessor", 500);
+    vrt::require("same_storage.failing_call_between_two_contents", 500);
+    vrt::phase("same_storage", vrt::tier_count(800, 24000), [&](uint64_t i, Rng &r) {
+        PlacementScope ps;
+        static const size_t LS[] = {33, 40, 64, 100, 256, 300, 1024, 1500, 4096, 5000, 16387};
+        static const size_t AS[] = {20, 40, 64, 100, 256, 300, 1024, 1500, 4096, 5000};
+        const size_t L = LS[i % 11], A = AS[(i / 11) % 10], K = 3 + r.below(4);
+        placement().mode = 3;
+        placement().align = r.below(16);
+        const size_t arg_align = r.below(16);
+        CallerTexts ct;
+        Values v;
+        random_values(r, v);
+        static const int shapes[] = {5, 7, 45, 13, 2, 32, 200, 202, 8, 14, 3, 15, 46, 34, 42, 36};
+        const int shape = r.pick(shapes);
+        std::vector<Arg> args;
+        call_shape(shape, v, "", &args, [](const char *, auto &&...) {});
+        std::vector<ScaleFmt> fmts;
+        std::vector<S> texts;
+        same_storage_formats(r, args.size(), L, K, false, fmts);
+        same_storage_texts(r, A, K, texts);
+        for (size_t k = 0; k < K; ++k) {
+            ST::string prev(std::move(v.st));
+            ct.set(v, texts[k], arg_align);
+            succeed_st(v, prev, texts[k]);
+            run(shape, v, fmts[k].lits, fmts[k].fields);
+            vrt::count("same_storage.contents");
+            if (r.chance(1, 2)) {       // a call that fails, from the same buffers (same length: a one-digit argument index becomes 9)
+                std::vector<Field> bad = fmts[k].fields;
+                std::vector<size_t> cand;
+                for (size_t q = 0; q < bad.size(); ++q) if (bad[q].argref >= 1 && bad[q].argref <= 8) cand.push_back(q);
+                if (!cand.empty() && args.size() < 9) {
+                    bad[r.pick(cand)].argref = 9;
+                    run(shape, v, fmts[k].lits, bad);
+                    vrt::count("same_storage.failing_call_between_two_contents");
+                }
+            }
+        }
+        vrt::count("same_storage.cases");
+        if (vrt::want_sample("same_storage") && L == 64)
+            vrt::sample("same_storage", sfmt("shape %d: %zu format strings of %zu bytes in one buffer (\"%s\", \"%s\", ...), text arguments of %zu bytes rewritten in place", shape, K, L,
+                                             vrt::json_escape(fmts[0].text()).c_str(), vrt::json_escape(fmts[1].text()).c_str(), A));
+    });
+
+    // ---- soak
+    vrt::require("soak.cases_with_70000_or_more_consecutive_calls", 16);
+    vrt::require("soak.runs_of_64_or_more_equal_calls_then_an_interesting_one", 1000);
+    vrt::phase("soak", vrt::thorough() ? 64 : 16, [&](uint64_t, Rng &r) {
+        PlacementScope ps;
+        const size_t M = 40;
+        std::vector<std::unique_ptr<SoakEntry>> pool, boring;
+        for (size_t k = 0; k < M; ++k) pool.push_back(soak_entry(r, k % 4 == 3 ? 2 : 1));
+        for (size_t k = 0; k < 6; ++k) boring.push_back(soak_entry(r, 0));
+        uint64_t calls = 0, runs = 0;
+        while (calls < 72000) {
+            if (r.chance(1, 150)) {
+                SoakEntry &b = *boring[r.below(boring.size())];
+                std::unique_ptr<SoakEntry> next = soak_entry(r, 2);
+                const size_t n = 64 + r.below(237);
+                for (size_t k = 0; k < n; ++k) soak_execute(b);
+                soak_execute(*next);
+                calls += n + 1;
+                ++runs;
+                if (r.chance(1, 4)) boring[r.below(boring.size())] = soak_entry(r, 0);
+                pool[r.below(M)] = std::move(next);
+            } else {
+                soak_execute(*pool[r.below(M)]);
+                ++calls;
+                if (r.chance(1, 25)) pool[r.below(M)] = soak_entry(r, r.chance(1, 3) ? 2 : 1);
+            }
+        }
+        vrt::count("soak.calls", calls);
+        vrt::count("soak.runs_of_64_or_more_equal_calls_then_an_interesting_one", runs);
+        if (calls >= 70000) vrt::count("soak.cases_with_70000_or_more_consecutive_calls");
+        if (vrt::want_sample("soak")) vrt::sample("soak", sfmt("%llu consecutive ST::format calls of mixed shapes in one case, %llu runs of 64..300 equal plain calls each followed by an interesting one",
+                                                               static_cast<unsigned long long>(calls), static_cast<unsigned long long>(runs)));
+    });
+
+    // ---- format strings behind foreign bytes, at every start alignment
+    vrt::require("alignment.format_strings", 1000);
+    vrt::require("alignment.calls_with_a_format_string_behind_foreign_bytes", 90000);
+    const unsigned usual_budget = vrt::case_cpu_budget();
+    vrt::case_cpu_budget() = 8;                 // (small cases: a parser that runs away from such a string is stopped early)
+    vrt::phase("alignment", vrt::tier_count(1020, 40800), [&](uint64_t i, Rng &r) {
+        PlacementScope ps;
+        Values v;
+        random_values(r, v);
+        static const int shapes[] = {1, 2, 3, 5, 6, 7, 9, 10, 12, 47, 0, 200};
+        const int shape = r.pick(shapes);
+        std::vector<Arg> args;
+        call_shape(shape, v, "", &args, [](const char *, auto &&...) {});
+        ScaleFmt sf;
+        alignment_format(i, r, args.size(), false, sf);
+        Placement &pl = placement();
+        pl.mode = 2;
+        for (size_t a = 0; a < 16; ++a)
+            for (int q = 0; q < N_ALIGN_PREFIXES; ++q) {
+                pl.align = a;
+                pl.prefix = ALIGN_PREFIXES[q];
+                pl.fill_with_prefix = ((a + static_cast<size_t>(q) + i) % 2) != 0;
+                run(shape, v, sf.lits, sf.fields);
+            }
+        if (vrt::want_sample("alignment") && sf.len < 50)
+            vrt::sample("alignment", sfmt("shape %d, format \"%s\" at every address modulo 16 with {, }, {{, }}, {} and }{ directly in front of it in the same block", shape, vrt::json_escape(sf.text()).c_str()));
+    });
+    vrt::case_cpu_budget() = usual_budget;
 }
 
 static void body()
@@ -331,6 +646,7 @@ static void body()
         run(c.shape, v, c.f.lits, c.f.fields);
         if (vrt::want_sample("scale-arguments")) vrt::sample("scale-arguments", sfmt("shape %d, format \"%s\": %s", c.shape, vrt::json_escape(c.f.text().substr(0, 80)).c_str(), c.what.c_str()));
     });
+    history_phases();
     vrt::alloc::check_pairing("fmtout");
 }
 
